@@ -1,4 +1,5 @@
 import GJS.Model.Run
+import GJS.Cert
 import GJS.Proofs.Mono
 import GJS.Props.C05
 import GJS.Props.C06
@@ -400,17 +401,41 @@ theorem common_fuel (w : Wire) (env : Env) (t : GoTy) :
     · obtain ⟨v', hv'⟩ := hF y e
       exact ⟨v', Proofs.decode_ok_mono w env t y v' F _ (Nat.le_max_left ..) hv'⟩
 
-/-- **a slice accepts a JSON array iff its element type accepts every element** (element types other than named
-    types and `uint8`, whose slices are byte strings: K22) -/
-theorem acc_slice_iff (env : Env) (t : GoTy) (xs : List Json)
-    (hn : ∀ n, t ≠ .named n) (hb : t ≠ .int .u8) :
+theorem elemOK_of (env : Env) (t : GoTy) (hn : ∀ n, t ≠ .named n) (hb : t ≠ .int .u8) : elemOK env t = true := by
+  cases t <;> first
+    | (exfalso; exact hn _ rfl)
+    | (rename_i k; cases k <;> first | (exfalso; exact hb rfl) | rfl)
+    | rfl
+
+/-- a slice of anything but bytes decodes its array element by element -/
+theorem decode_slice_eq (env : Env) (t : GoTy) (xs : List Json) (f : Nat) (he : elemOK env t = true) :
+    decode .json env (f + 1) (.slice t) (.arr xs) = (decodeElems .json env f t xs).map .slice := by
+  cases t with
+  | named n =>
+    simp only [elemOK] at he
+    cases hr : env.resolve 8 n with
+    | none => simp [decode, hr]
+    | some d =>
+      rw [hr] at he
+      simp only at he
+      split at he
+      · cases he
+      · rename_i hne
+        have hc : (match d.ty with | .int .u8 => true | _ => false) = false := by
+          split
+          · rename_i hty; exact absurd hty (hne)
+          · rfl
+        simp only [decode, hr, hc]
+        simp
+  | int k => cases k <;> first | (simp [elemOK] at he; done) | simp [decode]
+  | _ => simp [decode]
+
+/-- **a slice accepts a JSON array iff its element type accepts every element** (element types other than
+    `uint8` and its named aliases, whose slices are byte strings: K22) -/
+theorem acc_slice_iff (env : Env) (t : GoTy) (xs : List Json) (he : elemOK env t = true) :
     Acc .json env (.slice t) (.arr xs) ↔ ∀ x ∈ xs, Acc .json env t x := by
-  have hdec : ∀ f, decode .json env (f + 1) (.slice t) (.arr xs) = (decodeElems .json env f t xs).map .slice := by
-    intro f
-    cases t <;> first
-      | (exfalso; exact hn _ rfl)
-      | (rename_i k; cases k <;> first | (exfalso; exact hb rfl) | simp [decode])
-      | simp [decode]
+  have hdec : ∀ f, decode .json env (f + 1) (.slice t) (.arr xs) = (decodeElems .json env f t xs).map .slice :=
+    fun f => decode_slice_eq env t xs f he
   constructor
   · rintro ⟨f, v, h⟩
     cases f with
